@@ -6,6 +6,7 @@ import (
 	"go/token"
 	"go/types"
 	"sort"
+	"strings"
 
 	"golang.org/x/tools/go/ssa"
 )
@@ -88,20 +89,34 @@ func r031(c *Ctx, r *R) {
 	isBlack := func(v ssa.Value) bool { return paramIndex(f, v) == pBlack }
 	isPrio := func(v ssa.Value) bool { return paramIndex(f, v) == pPrio }
 	isCurrent := func(v ssa.Value) bool { // currentPin.Allocations (phi with nil)
-		for _, l := range phiLeaves(v) {
+		for _, l := range phiLeaves(strip(v)) {
 			if fl, _ := fieldLoad(l); fl != nil && fl.Name() == "Allocations" {
 				return true
 			}
 		}
 		return false
 	}
+	// a set may also travel as a field of a small struct filled by a helper
+	// (`split := splitMetrics(...); obtainAllocations(..., split.current,
+	// ...)`): then the set is that field, wherever it is written
+	slotFld := map[*types.Var]string{}
+	for v, name := range slot {
+		if fl, _ := fieldLoad(v); fl != nil {
+			slotFld[fl] = name
+		}
+	}
 	n := 0
-	instrs(f, func(i ssa.Instruction) {
+	instrsDeep(f, func(i ssa.Instruction) {
 		mu, ok := i.(*ssa.MapUpdate)
 		if !ok {
 			return
 		}
 		s := slot[mu.Map]
+		if s == "" {
+			if fl, _ := fieldLoad(mu.Map); fl != nil {
+				s = slotFld[fl]
+			}
+		}
 		if s == "" {
 			return
 		}
@@ -134,13 +149,18 @@ func r032(c *Ctx, r *R) {
 		return
 	}
 	n := 0
-	instrs(f, func(i ssa.Instruction) {
+	instrsDeep(f, func(i ssa.Instruction) {
 		mu, ok := i.(*ssa.MapUpdate)
 		if !ok {
 			return
 		}
+		// a metric set: a map made here, or kept in a field of a small
+		// struct that carries the sets out of a helper
 		if _, isMM := mu.Map.(*ssa.MakeMap); !isMM {
-			return
+			fl, _ := fieldLoad(mu.Map)
+			if fl == nil || !strings.HasSuffix(mu.Map.Type().String(), "api.Metric") {
+				return
+			}
 		}
 		n++
 		r.Check(derivesFromCall(mu.Value, 8, ModPath+".PeerMonitor).LatestMetrics"), fmt.Sprintf("from-monitor#%d", n), mu.Pos(),
@@ -533,10 +553,27 @@ func r035(c *Ctx, r *R) {
 		f := im.fn
 		short := im.name[len(ModPath)+1:]
 		okShape := false
-		for _, lf := range returnLeaves(f, 0) {
+		// the values returned: as written (an accumulator filled by a loop
+		// is one value), and otherwise each alternative
+		var cands []ssa.Value
+		for _, ret := range returnsOf(f) {
+			if len(ret.Results) > 0 {
+				raw := retResult(ret, 0)
+				if _, _, ok := sortSegments(raw, map[*ssa.Parameter]ssa.Value{}, 0); ok {
+					cands = append(cands, raw)
+					continue
+				}
+			}
+			for _, lf := range returnLeaves(f, 0) {
+				if lf.Ret == ret {
+					cands = append(cands, lf.Val)
+				}
+			}
+		}
+		for _, cv := range cands {
 			// the result as a sequence of sorted segments, wherever the
 			// concatenation is written (here or in a shared helper)
-			segs, pos, ok := sortSegments(lf.Val, map[*ssa.Parameter]ssa.Value{}, 0)
+			segs, pos, ok := sortSegments(cv, map[*ssa.Parameter]ssa.Value{}, 0)
 			if !ok || len(segs) != 2 {
 				continue
 			}
@@ -768,6 +805,51 @@ func sortSegments(v ssa.Value, env map[*ssa.Parameter]ssa.Value, depth int) ([]s
 		return x
 	}
 	v = resolve(v)
+	// an accumulator filled by a loop over a literal list of sets:
+	// `for _, set := range []M{priority, candidates} { acc = append(acc,
+	// SortNumeric(set, rev)...) }` is the concatenation row by row
+	if phi, isPhi := v.(*ssa.Phi); isPhi && len(phi.Edges) == 2 {
+		for i, e := range phi.Edges {
+			app, _ := originCallLocal(e)
+			if app == nil || callName(app.Common()) != "builtin.append" || len(app.Common().Args) != 2 || stripLocal(app.Common().Args[0]) != ssa.Value(phi) {
+				continue
+			}
+			// the other edge starts empty
+			init, _ := originCallLocal(phi.Edges[1-i])
+			emptyInit := false
+			if mk, isMk := stripLocal(phi.Edges[1-i]).(*ssa.MakeSlice); isMk {
+				if k, isK := constInt(mk.Len); isK && k == 0 {
+					emptyInit = true
+				}
+			}
+			if k, isK := phi.Edges[1-i].(*ssa.Const); isK && k.IsNil() {
+				emptyInit = true
+			}
+			_ = init
+			sn, _ := originCallLocal(app.Common().Args[1])
+			if !emptyInit || sn == nil || !nameMatches(callName(sn.Common()), "allocator/util.SortNumeric") {
+				continue
+			}
+			u, isU := stripLocal(sn.Common().Args[0]).(*ssa.UnOp)
+			if !isU || u.Op != token.MUL {
+				continue
+			}
+			ia, isIA := u.X.(*ssa.IndexAddr)
+			if !isIA {
+				continue
+			}
+			rows, hdr, ok := rangeOverLiteral(ia, app.Block())
+			if !ok || hdr != phi.Block() {
+				continue
+			}
+			var segs []sortSeg
+			for _, row := range rows {
+				segs = append(segs, sortSeg{resolve(row), resolve(sn.Common().Args[1])})
+			}
+			return segs, app.Pos(), true
+		}
+		return nil, token.NoPos, false
+	}
 	call, _ := originCallLocal(v)
 	if call == nil {
 		return nil, token.NoPos, false
